@@ -255,6 +255,32 @@ def fresh_credentials(ck, m):
                 why = 'the permission list is read from the database on every check' if ok else \
                     'the permission list parsed by has_permission does not come from a read of Database.map in this call (cached / stale source)'
         ck.ob('C09.d', short(hp.id), 'permission-list-read-fresh', ok, why, '%s:%s' % (hp.file, hp.line))
+        # ... and it is the list of the SESSION's user: the key of every read of the database made by the permission check (closures
+        # included) depends on what the session says about its user (a call on the Client), or on a value the check was handed / captured —
+        # a key made of constants only is somebody else's list (a fallback to `$$permission_$all` makes the answers to a user session
+        # depend on the list of the token sessions)
+        from nl.locks import backward_slice as _bs
+        foreign = []
+        nreads = 0
+        for ub in [hp] + [b for b in P.user_bodies() if b.id.startswith(hp.id + '::{closure')]:
+            for bi, t in ub.calls():
+                cb = P.bodies.get(callee(t))
+                if cb is None or is_log(t) or len(cb.locals) < 2 or 'nundb::bo::Database' not in cb.locals[1] or len(t['args']) < 2:
+                    continue
+                if not any(callee_decl(t2) == 'std::sync::RwLock::read' for _, t2 in cb.calls()):
+                    continue
+                nreads += 1
+                calls_, params_ = _bs(ub, t['args'][1])
+                session = [c for c in calls_ if P.bodies.get(callee(ub.term(c))) is not None
+                           and any('nundb::bo::Client' in x for x in P.bodies[callee(ub.term(c))].locals[1:2])]
+                captured = [p_ for p_ in params_ if not (ub.kind == 'closure' and p_ != 1)] if ub.kind == 'closure' else []
+                if not session and not captured:
+                    foreign.append(ub.loc(bi))
+        ck.ob('C09.d', short(hp.id), 'permission-list-of-the-session-user', not foreign,
+              'every list the permission check reads is named after the session\'s user' if not foreign else
+              'the permission check reads a list whose key does not depend on the session (%s): the rights of — and the replies to — a user '
+              'session follow the permission list of other sessions' % foreign, foreign[0] if foreign else '%s:%s' % (hp.file, hp.line))
+        ck.floor('C09.d', nreads, 1, 'reads of the database in the permission check')
 
 
 def first_block_in(m, ev):
@@ -416,7 +442,10 @@ def success_of_guard(m, d, region, bi):
             non_err = {tb for v, tb in t['targets'] if str(v) not in err_discr} | ({t['else']} - err_targets)
             if not err_targets:
                 continue
-            if any(d.dominates(x, bi) for x in non_err) and not any(d.dominates(x, bi) for x in err_targets):
+            # judged by reachability: a match guard on the Error arm (`Error { msg } if msg == .. =>`) falls through into the `_` arm,
+            # so the success block is still dominated by nothing on the error side, yet an Error answer reaches it
+            if any(d.dominates(x, bi) for x in non_err) and not any(d.dominates(x, bi) for x in err_targets) \
+                    and not any(bi in d.reach_from([x], include_start=True) for x in err_targets):
                 return srcs
     return None
 
